@@ -28,9 +28,17 @@ var c16Files = map[string]string{
 	"tx.mg":      "Decl tx(X) temporal descr [extensional()] bound [/number].\ntx(1)@[2024-01-01, 2024-01-20].\n",
 	"tx2.mg":     "tx(1)@[2024-01-10, 2024-02-15].\ntx(2)@[2024-03-01, 2024-03-02].\ntx(1)@[2024-01-01, 2024-01-20].\n",
 	"bad.mg":     "a(1) :- .\n",
+	"n.mg":       "# a file that defines nothing\n",
+	"cost.mg":    "cost(/k, 3).\ncost(/j, 9).\n",
+	"lattice.mg": c16Lattice,
 	"dup.mg":     "a(9).\n",
 	"evalerr.mg": "x(Y) :- a(X), Y = fn:div(X, 0).\n",
 }
+
+// c16Lattice declares cost/2 as a lattice predicate (functional dependency, merge predicate) and derives values for it
+// through a rule, so that evaluation replaces facts of an earlier fragment by merged ones.
+const c16Lattice = "Decl cost(K, V) descr [fundep([K], [V]), merge([V], 'maxi')].\nDecl maxi(A, B, C) descr [mode('+', '+', '-'), deferred()].\n" +
+	"maxi(A, B, C) :- A < B, C = B.\nmaxi(A, B, C) :- B <= A, C = A.\noffer(/k, 5).\noffer(/j, 2).\ncost(K, V) :- offer(K, V).\n"
 
 type c16Cmd struct {
 	kind string // define | load | pop
@@ -70,11 +78,19 @@ var c16Alphabet = []c16Cmd{
 	{"load", "dup.mg"},
 	{"load", "evalerr.mg"},
 	{"pop", ""},
+	{"load", "n.mg"},
+	{"load", "cost.mg"},
+	{"load", "lattice.mg"},
+	{"define", strings.ReplaceAll(strings.TrimSpace(c16Lattice), "\n", " ")},
+	{"define", "expensive(K) :- cost(K, V), V > 2."},
 }
+
+// c16LatticeAlpha: the commands around a lattice predicate and a file that can be loaded any number of times.
+var c16LatticeAlpha = []int{22, 23, 24, 25, 26, 0, 21}
 
 var c16Small = []int{0, 2, 3, 6, 8, 10, 11, 13, 15, 16, 17, 19, 21} // p(1), q, r, Decl a, base/inv, load a, load b, load t, load tx, load tx2, define tx, load dup, pop
 
-var c16Preds = []string{"p", "q", "r", "s", "a", "b", "c", "x", "ta", "tb", "nope", "zz", "base", "inv", "ev", "tx"}
+var c16Preds = []string{"p", "q", "r", "s", "a", "b", "c", "x", "ta", "tb", "nope", "zz", "base", "inv", "ev", "tx", "cost", "offer", "expensive"}
 
 type c16State struct {
 	loaded      []string // live loaded pathsets
@@ -234,6 +250,11 @@ func c16(r *rt.Run) {
 		}
 		run(small, 6, false)
 		run(small, 4, true)
+		var lat []c16Cmd
+		for _, i := range c16LatticeAlpha {
+			lat = append(lat, alphabet[i])
+		}
+		run(lat, 7, false)
 	} else {
 		var small []c16Cmd
 		for _, i := range c16Small {
@@ -241,12 +262,17 @@ func c16(r *rt.Run) {
 		}
 		run(alphabet, 3, false)
 		run(small, 4, false)
+		var lat []c16Cmd
+		for _, i := range c16LatticeAlpha {
+			lat = append(lat, alphabet[i])
+		}
+		run(lat, 5, false)
 	}
 	_ = depth
 	_ = firsts
 	_ = jobs
 	os.RemoveAll(root)
-	r.Finish("every command history up to depth d over 22 commands (11 defines incl. a temporal fact that extends a loaded extensional temporal predicate, 10 loads incl. two files for that predicate with overlapping intervals; incl. declarations, a rejected one, a redefinition and two that pass analysis and fail at evaluation, 8 loads incl. parse error, redefinition, evaluation error, temporal file, multi-file pathset; pop), each on a fresh interpreter; " +
+	r.Finish("every command history up to depth d over 27 commands (a sub-alphabet of 7 around a lattice predicate with a merge predicate whose rule improves facts of an earlier fragment, and a file that defines nothing and can be loaded repeatedly, to depth 5 (thorough 7); 11 defines incl. a temporal fact that extends a loaded extensional temporal predicate, 10 loads incl. two files for that predicate with overlapping intervals; incl. declarations, a rejected one, a redefinition and two that pass analysis and fail at evaluation, 8 loads incl. parse error, redefinition, evaluation error, temporal file, multi-file pathset; pop), each on a fresh interpreter; " +
 		"after every command: success/failure and the answers to 11 predicate queries are compared with a fresh interpreter that loads only the live fragments; states = distinct histories, non-trivial = histories with a pop or a failed command")
 }
 
